@@ -31,6 +31,7 @@ func init() {
 			kvLookupCoversAllTables(r)
 			compactionShape(r)
 			c02DeletePropagates(r)
+			fragmentRevalidatedAfterLock(r)
 		},
 	})
 }
